@@ -20,7 +20,10 @@ use crate::{
     typ::{DictTypeFlavour, EnumRowsF, RecordRowF, RecordRowsF, TypeF},
 };
 
-use malachite::base::num::{basic::traits::Zero, conversion::traits::ToSci};
+use malachite::base::num::{
+    basic::traits::Zero,
+    conversion::{string::options::ToSciOptions, traits::ToSci},
+};
 use pretty::docs;
 pub use pretty::{DocAllocator, DocBuilder, Pretty};
 use regex::Regex;
@@ -112,6 +115,20 @@ fn min_interpolate_sign(text: &str) -> usize {
         })
         .max()
         .unwrap_or(1)
+}
+
+/// Render a number literal. Numbers coming from the parser always have a finite decimal expansion:
+/// print all of it, so that parsing the output gives back exactly the same number (the default
+/// options of `to_sci` round to 16 significant digits). Other rationals (which can't be written as
+/// a literal anyway) keep the rounded rendering.
+pub fn number_literal(n: &Number) -> String {
+    let mut options = ToSciOptions::default();
+
+    if n.length_after_point_in_small_base(10).is_some() {
+        options.set_size_complete();
+    }
+
+    n.to_sci_with_options(options).to_string()
 }
 
 /// Escape a string to make it suitable for placing between quotes in Nickel
@@ -562,7 +579,7 @@ impl Allocator {
                 MergePriority::Bottom => docs![self, self.line(), "| default"],
                 MergePriority::Neutral => self.nil(),
                 MergePriority::Numeral(p) =>
-                    docs![self, self.line(), "| priority ", p.to_sci().to_string()],
+                    docs![self, self.line(), "| priority ", number_literal(p)],
                 MergePriority::Top => docs![self, self.line(), "| force"],
             }
         ]
@@ -763,7 +780,7 @@ impl<'a> Pretty<'a, Allocator> for &ConstantPatternData<'_> {
     fn pretty(self, allocator: &'a Allocator) -> DocBuilder<'a, Allocator> {
         match self {
             ConstantPatternData::Bool(b) => allocator.as_string(b),
-            ConstantPatternData::Number(n) => allocator.as_string(format!("{}", n.to_sci())),
+            ConstantPatternData::Number(n) => allocator.as_string(number_literal(n)),
             ConstantPatternData::String(s) => allocator.escaped_string(s).double_quotes(),
             ConstantPatternData::Null => allocator.text("null"),
         }
@@ -896,7 +913,7 @@ impl<'a> Pretty<'a, Allocator> for &Node<'_> {
         match self {
             Node::Null => allocator.text("null"),
             Node::Bool(v) => allocator.as_string(v),
-            Node::Number(n) => allocator.as_string(format!("{}", n.to_sci())),
+            Node::Number(n) => allocator.as_string(number_literal(n)),
             Node::String(v) => allocator.escaped_string(v).double_quotes(),
             Node::StringChunks(chunks) => allocator.chunks(chunks, StringRenderStyle::Multiline),
             Node::IfThenElse {
